@@ -963,6 +963,44 @@ Proof.
   destruct (64 <? length b)%nat eqn:F, (length b <=? 64)%nat eqn:G; try reflexivity; bconv; lia.
 Qed.
 
+(* keys that are class instances: the converted key has the content of the key, hence keys that differ in content
+   stay different after conversion *)
+Lemma hkey_abs_to_prim : forall k, hkey k = true -> abs (to_prim k) = abs k.
+Proof.
+  induction k as [z|b|b|xs IH|xs IH|kvs IH|t v IH|id fts fs IH|w IH] using pv_ind'; intros H; try discriminate;
+    try reflexivity.
+  cbn [hkey] in H. rewrite forallb_Forall in H. cbn [to_prim]. rewrite get_tag_spec.
+  change (match map to_prim fs with [] => PList [] | _ :: _ => PIList (map to_prim fs) end) with (seqv (map to_prim fs)).
+  rewrite abs_tagged, unlist_seqv, map_map. cbn [abs]. f_equal.
+  apply map_ext_Forall. exact (Forall_mp _ _ _ IH H).
+Qed.
+
+Lemma kdistinct_of_absnodup (f g : pv -> pv) kvs :
+  (forall kv kv', In kv kvs -> In kv' kvs -> pv_eqb (f (fst kv)) (f (fst kv')) = true -> abs (fst kv) = abs (fst kv')) ->
+  nodupb data_eqb (map (fun kv => abs (fst kv)) kvs) = true ->
+  kdistinct (map (fun kv => (f (fst kv), g (snd kv))) kvs).
+Proof.
+  induction kvs as [|[k v] kvs IH]; cbn [map nodupb kdistinct fst snd]; [trivial|].
+  intros Inj H. apply andb_true_iff in H as [H1 H2]. split.
+  - apply Forall_forall. intros x Hx. apply in_map_iff in Hx as ([k' v'] & <- & Hin). cbn [fst snd].
+    destruct (pv_eqb (f k) (f k')) eqn:E; [|reflexivity]. apply negb_true_iff in H1.
+    apply (Inj (k, v) (k', v')) in E; [|now left|now right]. cbn [fst] in E.
+    assert (X : existsb (data_eqb (abs k)) (map (fun kv => abs (fst kv)) kvs) = true).
+    { apply existsb_exists. exists (abs k'). split; [|rewrite E; apply data_eqb_refl].
+      apply in_map_iff. now exists (k', v'). }
+    congruence.
+  - apply IH; [|assumption]. intros kv kv' Hi Hi'. apply Inj; now right.
+Qed.
+
+Lemma kdistinct_id_of_absnodup kvs :
+  nodupb data_eqb (map (fun kv => abs (fst kv)) kvs) = true -> kdistinct kvs.
+Proof.
+  intros H. pose proof (kdistinct_of_absnodup (fun x => x) (fun x => x) kvs) as D.
+  rewrite (map_ext_Forall _ (fun kv => kv)) in D by (apply Forall_forall; intros [] _; reflexivity).
+  rewrite map_id in D. apply D; [|assumption].
+  intros kv kv' _ _ E. apply pv_eqb_sound in E. now rewrite E.
+Qed.
+
 Lemma rawc_elim w : rawc w = true -> w = raw_canon (abs w) /\ ints_ok (abs w) = true /\ nodup_keys (abs w) = true.
 Proof.
   unfold rawc. intros H. apply andb_true_iff in H as [H H3]. apply andb_true_iff in H as [H1 H2].
@@ -983,20 +1021,22 @@ Proof.
     rewrite forallb_Forall in Hc. cbn [to_prim abs plutus_ref dumps].
     rewrite (mapM_map2 _ _ (fun y => plutus_ref (abs y))) by exact (Forall_mp _ _ _ IH Hc).
     cbn [bind map ref_seq]. now rewrite map_map.
-  - rewrite forallb_Forall in Hc. cbn [v_nodup v_atom_keys] in *.
+  - rewrite forallb_Forall in Hc. cbn [v_nodup v_hkeys] in *.
     match goal with Ha : forallb _ kvs = true |- _ => rewrite forallb_Forall in Ha; rename Ha into Hk end.
     cbn [to_prim abs plutus_ref].
-    rewrite (map_ext_Forall _ (fun kv => (fst kv, to_prim (snd kv)))).
-    2:{ eapply Forall_impl; [|exact Hk]. cbn. intros [k w] K. cbn in *. destruct k; try discriminate; reflexivity. }
-    rewrite dict_of_list_distinct by (now apply kdistinct_of_nodupb).
+    (* the keys -- class instances included -- are converted like values; converted keys stay pairwise different *)
+    rewrite dict_of_list_distinct.
+    2:{ apply kdistinct_of_absnodup; [|assumption]. intros kv kv' Hi Hi' E. apply pv_eqb_sound in E.
+        rewrite Forall_forall in Hk.
+        rewrite <- (hkey_abs_to_prim (fst kv)), <- (hkey_abs_to_prim (fst kv')) by (apply Hk; assumption).
+        now rewrite E. }
     cbn [dumps].
     rewrite (mapM_map2 _ _ (fun kv => (plutus_ref (abs (fst kv)), plutus_ref (abs (snd kv))))).
     + cbn [bind]. now rewrite map_map.
-    + clear -IH Hc Hk. induction IH as [|kv kvs [H1 H2] _ IHk]; inversion Hc as [|? ? C1 Hc']; inversion Hk as [|? ? K1 Hk'];
+    + clear -IH Hc. induction IH as [|kv kvs [H1 H2] _ IHk]; inversion Hc as [|? ? C1 Hc'];
         subst; constructor; auto.
       apply andb_true_iff in C1 as [C1 C2]. cbn [fst snd].
-      assert (E : to_prim (fst kv) = fst kv) by (destruct (fst kv); try discriminate; reflexivity).
-      rewrite <- E at 1. rewrite H1, H2 by assumption. reflexivity.
+      rewrite H1, H2 by assumption. reflexivity.
   - (* bare CBORTag inside an IndefiniteList / Datum field: canonical raw data *)
     match goal with Hr : v_rawc (PTag t v) = true |- _ => cbn [v_rawc] in Hr; apply rawc_elim in Hr as (E & Hi & Hd) end.
     rewrite E at 1. rewrite to_prim_canon, dumps_canon by assumption. reflexivity.
@@ -1332,10 +1372,7 @@ Proof.
   - rewrite forallb_Forall in Hc. cbn [pynorm]. f_equal. apply map_id_Forall. exact (Forall_mp _ _ _ IH Hc).
   - rewrite forallb_Forall in Hc. cbn [v_nodup] in *. cbn [pynorm].
     rewrite (map_id_Forall (fun kv => (pynorm (fst kv), pynorm (snd kv)))).
-    + rewrite dict_of_list_distinct; [reflexivity|].
-      match goal with Hd : nodupb pv_eqb (map fst kvs) = true |- _ => pose proof (kdistinct_of_nodupb (fun x => x) kvs Hd) as D end.
-      rewrite (map_ext_Forall _ (fun kv => kv)) in D by (apply Forall_forall; intros [] _; reflexivity).
-      now rewrite map_id in D.
+    + rewrite dict_of_list_distinct; [reflexivity|]. now apply kdistinct_id_of_absnodup.
     + clear -IH Hc. induction IH as [|kv kvs [H1 H2] _ IHk]; inversion Hc as [|? ? C1 Hc']; subst; constructor; auto.
       apply andb_true_iff in C1 as [C1 C2]. destruct kv. cbn [fst snd] in *. now rewrite H1, H2.
   - match goal with Hr : v_rawc (PTag t v) = true |- _ => cbn [v_rawc] in Hr; apply rawc_elim in Hr as (E & Hi & Hd) end.
@@ -1593,3 +1630,40 @@ Example ex_typed_region_sound :
 Proof. apply typed_region_sound; [lia | reflexivity | reflexivity]. Qed.
 Example ex_typed_todict : t_dict (fix_x (PIList [PInt 4; PInt 5; PInt 6])) = Ok (json_of fix_d).
 Proof. apply (typed_todict (fix_x (PIList [PInt 4; PInt 5; PInt 6]))); reflexivity. Qed.
+
+(* ----- map keys that are class instances (shapes of the Plutus script context: Map Credential Integer,
+   a map keyed by a general-form constructor).  The expected bytes were produced by an independent encoder
+   (PlutusCore.Data.encodeData transcribed to Python): the field list of a constructor used as a KEY is written
+   with indefinite length like anywhere else ----- *)
+Definition T_slot := TCls 1000 [TInt; TInt].
+Definition T_cred := TCls 0 [TBytes].
+Definition x_objkey : pv :=
+  PObj 9 [TDict T_slot TIList; TDict T_cred TInt]
+    [PDict [(PObj 1000 [TInt; TInt] [PInt 400; PInt 7], PIList [PInt 1; PInt 2]);
+            (PObj 1000 [TInt; TInt] [PInt 3; PInt 4294967296], PIList [PBytes (hx "78")])];
+     PDict [(PObj 0 [TBytes] [PBytes (repeat x03 28)], PInt (-1));
+            (PObj 0 [TBytes] [PBytes (repeat x11 28)], PInt 3)]].
+Definition objkey_bytes : bytes :=
+  hx "d905029fa2d866821903e89f19019007ff9f0102ffd866821903e89f031b0000000100000000ff9f4178ffa2d8799f581c03030303030303030303030303030303030303030303030303030303ff20d8799f581c11111111111111111111111111111111111111111111111111111111ff03ff".
+Example objkey_anchor :
+  canon_typed x_objkey = true /\ validate x_objkey = true
+  /\ plutus_bytes (abs x_objkey) = objkey_bytes /\ to_cbor x_objkey = Ok objkey_bytes.
+Proof.
+  assert (C : canon_typed x_objkey = true) by reflexivity.
+  assert (V : validate x_objkey = true) by reflexivity.
+  assert (B : plutus_bytes (abs x_objkey) = objkey_bytes) by (vm_compute; reflexivity).
+  split; [exact C|]. split; [exact V|]. split; [exact B|]. rewrite <- B. now apply typed_enc.
+Qed.
+(* the JSON route of the same object, and a key without fields through from_cbor *)
+Example ex_objkey_json :
+  (do j <- t_dict x_objkey; do y <- t_undict 9 [TDict T_slot TIList; TDict T_cred TInt] j; to_cbor y) = Ok objkey_bytes.
+Proof. vm_compute. reflexivity. Qed.
+Example ex_objkey_hollow_rt :
+  let x := PObj 5 [TDict (TCls 2 []) TInt] [PDict [(PObj 2 [] [], PInt 1)]] in
+  typed_from_cbor 5 [TDict (TCls 2 []) TInt] (plutus_bytes (abs x)) = Ok x /\ to_cbor x = Ok (plutus_bytes (abs x)).
+Proof. apply typed_rt; try reflexivity. vm_compute. auto 10. Qed.
+(* a key with fields cannot be read back (known region map-key-unhashable-decode): the decoder cannot hash it *)
+Example ex_objkey_decode_refuted :
+  typed_from_cbor 9 [TDict T_slot TIList; TDict T_cred TInt] objkey_bytes = Err E_Type.
+Proof. vm_compute. reflexivity. Qed.
+
